@@ -671,9 +671,8 @@ def hold_state(hist, pid):
         t = text.strip()
         if t in WAIT_TEXTS:
             wait = True
-        m = re.match(r'^@robot after_pull_request=(\S+)$', t)
-        if m:
-            deps.append(m.group(1))
+        if re.match(r'^@robot( after_pull_request=\S+)+$', t):
+            deps.extend(re.findall(r'after_pull_request=(\S+)', t))
     if wait:
         return ('wait', None)
     states = {p[0]: p[4] for p in w.all_prs()}
